@@ -149,7 +149,7 @@ cpdef list collect_intervals_fast(
         pred_result = predicate(val) if idx < end_idx else False
 
         if pred_result:
-            if start == 0:
+            if duration == 0:
                 start = idx
             duration += 1
         else:
